@@ -60,7 +60,11 @@ class Trace:
                 self.bind[e["res"]] = pos
             elif k == "READ" and e["stream"] == s:
                 pos = self._add(pos, self.val(e["length"]))
+                if e.a.get("res") is not None and not is_top(pos):
+                    self.bind[("call", ("free", "len"), (e["res"],), ())] = self.val(e["length"])        # stream_read returns exactly the length asked for
             elif k == "READALL" and e["stream"] == s:
+                if e.a.get("res") is not None and not is_top(pos):
+                    self.bind[("call", ("free", "len"), (e["res"],), ())] = N.mk_add(END(s), pos, -1)   # everything from here to the end
                 pos = END(s)
             elif k == "WRITE" and e["stream"] == s:
                 pos = self._add(pos, self.val(e["length"]))
